@@ -15,6 +15,7 @@ import (
 	"sort"
 	"sync"
 	"sync/atomic"
+	"unicode/utf8"
 )
 
 // Store defines the store for the nodes
@@ -245,6 +246,14 @@ func (s *Store) Flush() error {
 	coll := *s.getColl()
 	rnls := map[string]*rootNodeLoc{}
 	cnames := collNames(coll)
+	for _, name := range cnames {
+		if !utf8.ValidString(name) {
+			// The root record is JSON, which cannot carry such a name: it would be
+			// reloaded as a different name (U+FFFD for every offending byte), and
+			// collections whose names differ only in such bytes would be merged.
+			return fmt.Errorf("collection name %q is not valid UTF-8, so cannot Flush()", name)
+		}
+	}
 	for _, name := range cnames {
 		c := coll[name]
 		rnls[name] = c.rootAddRef()
